@@ -624,9 +624,10 @@ impl Id {
                     if v.as_bool() { then_ } else { else_ }.paths(cv)
                 })
             }
+            // `try path(f) catch (c | error)`
             Ast::TryCatch(f, c) => try_catch_run(f.paths((cv.0.clone(), cv.1)), move |e| {
                 c.run((cv.0.clone(), e.into_val()))
-                    .map(|e| Err(Exn::from(Error::path_expr(e?))))
+                    .map(|e| Err(Exn::from(Error::new(e?))))
             }),
             Ast::Path(f, path) => {
                 let path = path.map_ref(|i| {
